@@ -71,13 +71,24 @@ def exceptions : List (String × String × String) := [
      "read by the task goroutine, started after the channel was created under mu; only ever closed, never reassigned")
 ]
 
+/-- `fn` runs in the context the exception was written for: it is that function, or the named function that the
+    root starts with a `go` statement (the root's `$go` body given a name), or a helper all of whose call sites do -/
+def under : Nat → String → String → Bool
+  | 0, root, fn => fn == root
+  | fuel + 1, root, fn =>
+    fn == root ||
+    Generated.goStarts.any (fun g => g.2 == fn && g.1 ++ "$go" == root) ||
+    match Generated.callers.find? (fun e => e.1 == fn) with
+    | some (_, cs) => !cs.isEmpty && cs.all (fun c => c == fn || under fuel root c)
+    | none => false
+
 def holds (m : String) (write : Bool) (held : List String) : Bool :=
   held.contains m || (!write && held.contains (m ++ ":r"))
 
 def ok (a : String × String × Bool × List String) : Bool :=
   let (fn, field, write, held) := a
   match guard field with
-  | some m => holds m write held || exceptions.any (fun e => e.1 = fn && e.2.1 = field)
+  | some m => holds m write held || exceptions.any (fun e => e.2.1 = field && under 3 e.1 fn)
   | none => confined 4 fn
 
 /-- every access in the regenerated table follows the discipline -/
